@@ -77,6 +77,32 @@ TARGETS = {
                  "--foreign", "LazyValueRef{Null;Bool(bool);Number(f64);String(StringRef);Array(ArrayRef);Object(ObjectRef)}",
                  "--drop-param", "bump", "--import", "Gen.NanBoxGen", "--import", "Read.LazyTypes", "--import", "Gen.LazyNewGen"],
     },
+    # provider/src/read.rs: the six exported read functions that take a scope / a node address: NaN-box decode of the scope, dispatch
+    # on the kind, error codes, boxing of the answer; the raw-address dereference and the node operations are oracle parameters (C01)
+    "ReadAbiGen": {
+        "src": "provider/src/read.rs",
+        "args": ["--types", "", "--struct", "Context{input_bytes:Vec<u8>;bump_allocator:();string_interner:StringInterner}",
+                 "--also", "{repo}/core/src/read.rs:NanBox,ValueRef", "--also", "{repo}/provider/src/string_interner.rs:StringInterner",
+                 "--newtype", "NanBox", "--alias", "NanBoxValueRef=ValueRef", "--alias", "InternedStringId=usize",
+                 "--assoc-consts-of-w", "", "--extern-enum", "ErrorCode=EC_", "--extern-consts-of-w", "--wrappers", "Context",
+                 "--only", "shopify_function_input_get_obj_prop,shopify_function_input_get_interned_obj_prop,shopify_function_input_get_at_index,"
+                           "shopify_function_input_get_obj_key_at_index,shopify_function_input_get_val_len,shopify_function_input_get_utf8_str_addr",
+                 "--foreign", "NodeRef{addr:usize}",
+                 "--extern-fn", "LazyValueRef::mut_from_raw=node_at:Result<NodeRef,ErrorCode>",
+                 "--extern-fn", "std::slice::from_raw_parts=guest_bytes:Vec<u8>",
+                 "--extern-method", "NodeRef::get_object_property=node_get_prop:Result<Option<NodeRef>,ErrorCode>",
+                 "--extern-method", "NodeRef::get_at_index=node_get_at_index:Result<NodeRef,ErrorCode>",
+                 "--extern-method", "NodeRef::get_key_at_index=node_get_key_at_index:Result<NodeRef,ErrorCode>",
+                 "--extern-method", "NodeRef::encode=node_encode:Val", "--extern-method", "NodeRef::get_value_length=node_value_length:usize",
+                 "--extern-method", "NodeRef::get_utf8_str_addr=node_str_addr:usize",
+                 "--import", "Gen.NanBoxGen", "--import", "NanBox.NanBoxExt", "--import", "Gen.NanBoxFnGen", "--import", "Gen.InternGen", "--import", "Read.NodeRefTy",
+                 "--oracle", "node_at:N -> rres NodeRef", "--oracle", "guest_bytes:N -> N -> list N",
+                 "--oracle", "node_get_prop:N -> NodeRef -> list N -> list N -> unit -> rres (option NodeRef)",
+                 "--oracle", "node_get_at_index:N -> NodeRef -> N -> list N -> unit -> rres NodeRef",
+                 "--oracle", "node_get_key_at_index:N -> NodeRef -> N -> list N -> unit -> rres NodeRef",
+                 "--oracle", "node_encode:N -> NodeRef -> N", "--oracle", "node_value_length:N -> NodeRef -> N",
+                 "--oracle", "node_str_addr:N -> NodeRef -> list N -> N"],
+    },
     # api/src/read.rs: the body of impl_deserialize_for_int! instantiated for its ten integer types (C10)
     "IntDeserGen": {
         "src": "api/src/read.rs",
